@@ -162,6 +162,8 @@ DOCS = {
 }
 SIGS = [
     "(a, b='x')", "(a: int, b: str = 'x') -> int", "(a=1, *args, b=2, **kw)", "(a, /, b='q', *, c=3)", "(\n    a,  # first\n    b='x',\n)", "(a, b=(1, 2), *rest, flag=False, **extra)",
+    # return annotations that contain parentheses / an arrow-like default (the header splice looks for ')' and '->')
+    "(a, b='x') -> Tuple[()]", "(a, b='->')",
 ]
 
 
@@ -303,8 +305,17 @@ def main(tier, write_baseline=False):
     run.trusted_base.add("cddvc E1 (Seq view of the CST list, uninterpreted attribute / type functions on CST nodes)")
     run.assumptions.add("CST node values are str (C09 contract for cst_parse; replacements are built by str.format), so ''.join cannot raise after the file was opened")
     refuted = []
+    model_replays = {}
     for o in e1.run_contracts(run, "contracts.C07"):
         refuted.append((o["name"], "obligation refuted by %s on path %s" % (o["backend"], " ".join(o["trace"]))))
+        # a refuted block obligation comes with a counter-model: run the real statements on it
+        import contracts.C07 as C7
+        from cddvc import replay_block
+        c = next((c for c in C7.CONTRACTS if c.block is not None and "/%s/" % c.qual in o["name"]), None)
+        if c is not None and o.get("model"):
+            r = replay_block.replay(c, o["model"])
+            if r and r.get("requires_hold") and (r.get("failed_ensures") or r.get("block_raised")):
+                model_replays[o["name"]] = {"contract": c.qual, "counterexample replayed on the real statements (CPython)": r}
     for name, ok, detail in frame_obligations():
         st = UNDECIDED if ok is None else (PROVED if ok else REFUTED)
         run.add("C07/frame/" + name, st, "rule-engine", detail=detail)
@@ -326,7 +337,8 @@ def main(tier, write_baseline=False):
         })
     for name, detail in refuted:
         cand = next((v for k, v in fails.items() if k[0] in ("not-atomic", "other-lines", "program-changed")), None)
-        run.violation(name, detail, failing_input=({"case": list(cand[0]), "what": cand[1]} if cand else None), solver_output={"rule": detail})
+        fi = model_replays.get(name) or ({"case": list(cand[0]), "what": cand[1]} if cand else None)
+        run.violation(name, detail, failing_input=fi, solver_output={"rule": detail})
     if not refuted:
         for (kind, variant, si), (case, what) in fails.items():
             run.violation("C07/bounded/%s" % kind, what, key={"kind": kind, "variant": variant, "signature": str(si)}, failing_input={"case": list(case)})
@@ -339,6 +351,26 @@ def replay(path):
     d = json.load(open(path))
     inp = (d.get("failing_input") or {}).get("case")
     print("replaying %s: obligation %s" % (path, d["failed_obligation"]))
+    if (d.get("failing_input") or {}).get("contract"):
+        # counter-model of a block contract: run the real statements on the recorded entry state again
+        import contracts.C07 as C7
+        from cddvc import replay_block
+        fi = d["failing_input"]
+        c = next(c for c in C7.CONTRACTS if c.qual == fi["contract"])
+        env = fi["counterexample replayed on the real statements (CPython)"]["env"]
+        model = {}
+        for k, v in env.items():
+            if isinstance(v, dict):
+                for idx, attrs in v.items():
+                    for a, x in attrs.items():
+                        pth = next((p_ for p_ in c.paths if p_.startswith(k + "[") and p_.endswith("." + a)), None)
+                        if pth:
+                            model[pth + "!0"] = '"%s"' % x.replace('"', '""') if isinstance(x, str) else str(x)
+            else:
+                model[k + "!0"] = '"%s"' % v.replace('"', '""') if isinstance(v, str) else str(v)
+        r = replay_block.replay(c, model)
+        print(json.dumps(r, indent=1, default=str)[:2000])
+        return 1 if r and r.get("requires_hold") and (r.get("failed_ensures") or r.get("block_raised")) else 0
     if not inp:
         return 1
     r = one_case(tuple(inp))
